@@ -109,7 +109,7 @@ pub fn roundtrip(ctx: &Ctx, rt: &tokio::runtime::Runtime, work: &Path, name: &st
 				ctx.violation(&format!("{cn}: declared tile format in the file differs"), &format!("{}: file declares {:?}, source {fname}", c.label, d.format), c.replay.clone());
 			}
 			for issue in &d.header_issues {
-				let class = if issue.contains("zoom levels") { "declared zoom range does not include the stored levels" } else if issue.contains("bounds") { "declared bounds do not fit the stored tiles" } else if issue.contains("clustered") { "'clustered' flag set although the tile data is not in tile-id order" } else { "header counters contradict the directories" };
+				let class = if issue.contains("mandatory row") { "a mandatory metadata row is missing" } else if issue.contains("zoom levels") { "declared zoom range does not include the stored levels" } else if issue.contains("bounds") { "declared bounds do not fit the stored tiles" } else if issue.contains("clustered") { "'clustered' flag set although the tile data is not in tile-id order" } else { "header counters contradict the directories" };
 				ctx.violation(&format!("{cn}: header of the written file contradicts its tiles: {class}{gap}"), &format!("{}: {issue}", c.label), c.replay.clone());
 			}
 			if d.compression != Some(ct::comp_id(c.comp)) && !expected.is_empty() {
@@ -263,7 +263,7 @@ pub fn run(ctx: Arc<Ctx>) {
 	ctx.rule(
 		"tile sets: BFS from the empty set by 'add (coordinate, payload)' over 14 coordinates x 5 payloads (canonical form = sorted map) to depth 2 (quick) / 3 (thorough; file-based targets depth 2), \
 		 x 5 target formats x two (format, compression) pairs; every accepted (format, compression) pair x representative sets; named families (dense 130x130 at z=8 -> PMTiles leaf directories, full z0..4 pyramid, 70/100 KiB payloads, level-31 corners, PMTiles root/leaf switch sweep + counts k*4096 and k*4096+1 (thorough: -1..+2) for k=1..5, diamond-shaped sparse levels, tiles of one block that differ in a single byte at swept positions); every format written to a path that already holds an earlier output (superset, shifted set, same coordinates with equal-size / longer payloads). \
-		 oracle: repository reader lookups + streams = independent decoder = source mapping; header fields (zoom range includes the stored levels, bounds valid and containing the top level's tile centres, PMTiles counters 0 or exact, MBTiles minzoom/maxzoom/bounds rows) consistent with the stored tiles. non-trivial = distinct tile sets spanning >= 2 blocks of a level, with duplicate payloads, payloads on both sides of 1000 bytes, or a zoom gap",
+		 oracle: repository reader lookups + streams = independent decoder = source mapping; header fields (zoom range includes the stored levels, bounds valid and containing the top level's tile centres, PMTiles counters 0 or exact, MBTiles minzoom/maxzoom/bounds rows, mandatory name and format rows present) consistent with the stored tiles. non-trivial = distinct tile sets spanning >= 2 blocks of a level, with duplicate payloads, payloads on both sides of 1000 bytes, or a zoom gap",
 	);
 	ctx.assume("compression libraries (flate2, brotli) and SQLite are the trusted base shared with the repository; the independent decoders are cross-validated against the repository's writers on this very space");
 	let work = ct::WorkDir::new("c01");
